@@ -227,6 +227,7 @@ class Executor:
 
         proven = os.environ.get("PYVC_PROVEN")
         allowed = set(json.loads(proven)) if proven else None
+        self.class_axiom_of: Dict[int, str] = {}
         out: List[Any] = []
         self.axioms_used = []
         self.axioms_withdrawn = []
@@ -237,7 +238,13 @@ class Executor:
             if allowed is not None and t not in allowed:
                 self.axioms_withdrawn.append(t)
                 continue
-            out.extend(class_axiom(c))
+            ca = class_axiom(c)
+            out.extend(ca)
+            # remembered per class: an obligation is discharged with the refinement axioms of the
+            # classes it mentions only (dropping hypotheses is sound; it keeps e-matching focused)
+            cname = T.classes().local(t.split(":")[1].split(".")[0], t.split(":")[0])
+            for a in ca:
+                self.class_axiom_of[a.get_id()] = "C_" + cname
             self.axioms_used.append(t)
         if hasattr(self.contract, "extra_axioms"):
             out.extend(self.contract.extra_axioms(self))
